@@ -22,6 +22,7 @@
     alignT_keyset / alignT_keys_full     ... keep the set of inputs; with all names given, .inputs order = names exactly
     alignT_partial_lazy                  partial names on a lazy non-tensor term: wrapper dropped, order unchanged
     align_keeps_domain / reorderByName_keeps_domain / reorderByPosition_witness   re-ordering keeps name -> domain
+    tensor_callers_covered / alignTensor_guards_pinned   tensor.py's own callers of align_tensor(s); OrderedDict guard pinned
     realign_callers_covered              obligation over Gen/C19Callers.lean (callers of to_data/to_funsor/align_tensor(s))
     madeOp_sem                           make_op rule (binary): value at every named point = f of the operands' values there
     operand_padded / clip_operand / buildAx_eq_map   the broadcasting glue (raw operands as maps over the axis range)
@@ -4256,6 +4257,35 @@ theorem madeOp_sem (sz : String → Nat) (f : α → α → α) (x y : Tensor α
         (fun p hp => by rw [hys p hp]; exact henv _)),
       (hLx env).1, (hLy env).1]
     simp [Tensor.atEnv]
+
+
+/-! ### callers of align_tensor(s) inside tensor.py, and align_tensor's guards (generated table) -/
+
+/-- tensor.py callers with a stream in fv/harness/c19.py: `align_tensors` (aligntensors stream,
+    `alignTensors_sem`), `eager_binary_tensor_tensor` (materialize / history binary steps,
+    `binaryT_sem`), `eager_stack_homogeneous` and `eager_cat_homogeneous` (stack stream). -/
+def coveredTensorCallers : List String :=
+  ["align_tensors", "eager_binary_tensor_tensor", "eager_stack_homogeneous", "eager_cat_homogeneous"]
+
+/-- tensor.py callers left to the property whose scope they fall in (by scope, not re-verified
+    here): sampling is C14's; the finitary stack/cat/generic rules, `Function`, `Lambda`,
+    tensor-indexed `getitem` and `Scatter` are term-evaluation rules exercised by the term-level
+    correspondences of C01 (eager = denotation), C04 (substitution) and C06 (declared types). -/
+def delegatedTensorCallers : List String :=
+  ["Tensor._sample", "eager_finitary_cat", "eager_finitary_generic_tensors", "eager_finitary_stack",
+   "eager_function", "eager_getitem_tensor_tensor", "eager_lambda", "eager_scatter_tensor"]
+
+theorem tensor_callers_covered :
+    ∀ c ∈ FV.Gen.C19Callers.tensorCallers,
+      c ∈ coveredTensorCallers ∨ c ∈ delegatedTensorCallers := by decide
+
+/-- `align_tensor`'s early return compares two `OrderedDict`s (order-SENSITIVE equality, which is
+    what the model's `x.inputs = newInputs` on lists is): the source must keep asserting that the
+    target is an `OrderedDict` — `OrderedDict == dict` is order-insensitive and would skip the
+    permutation for a target with the same names in another order. -/
+theorem alignTensor_guards_pinned :
+    "assert isinstance(new_inputs, OrderedDict)" ∈ FV.Gen.C19Callers.alignTensorGuards ∧
+    "if old_inputs == new_inputs:" ∈ FV.Gen.C19Callers.alignTensorGuards := by decide
 
 
 /-- `output=None`: the event shape is inferred from the leftmost key of `dim_to_name`, after which
